@@ -13,15 +13,18 @@ EXTENDS Merkle, Json
 CONSTANTS N,            \* source capacity (heights 0..N-1)
           InitLen,      \* length the cache is initialised to
           StartLen,     \* headers that exist at the start
-          MaxReqs, MaxReorgs, Variant, Export
+          MaxReqs, MaxReorgs, Variant, Export,
+          TruncFirst    \* TRUE: flush_backup as it was before fix (F11) - the worker thread truncates the cache (backup_fs)
+                        \* BEFORE it rolls the chain state back; a request served in between still passes its range check.
+                        \* Must violate NoPoisoning.  FALSE: truncation after the roll-back, which is what Reorg models.
 
-VARIABLES src, slen, gen, cache, trunc, reqs, nreq, nreorg, bad, evs
-vars == <<src, slen, gen, cache, trunc, reqs, nreq, nreorg, bad, evs>>
-View == <<src, slen, gen, cache, trunc, reqs, nreq, nreorg, bad>>
+VARIABLES src, slen, gen, cache, trunc, reqs, nreq, nreorg, bad, pend, evs
+vars == <<src, slen, gen, cache, trunc, reqs, nreq, nreorg, bad, pend, evs>>
+View == <<src, slen, gen, cache, trunc, reqs, nreq, nreorg, bad, pend>>
 
 Ev(e) == evs' = IF Export THEN Append(evs, e) ELSE evs
 Init == /\ src = Leaves(N) /\ slen = StartLen /\ gen = 0 /\ cache = CInit(Leaves(N), InitLen) /\ trunc = 0
-        /\ reqs = {} /\ nreq = 0 /\ nreorg = 0 /\ bad = {} /\ evs = <<>>
+        /\ reqs = {} /\ nreq = 0 /\ nreorg = 0 /\ bad = {} /\ pend = FALSE /\ evs = <<>>
 Visible == SubSeq(src, 1, slen)
 (* fs_block_hashes(start, count): exactly count hashes or a DBError *)
 Fetch(start, count) == IF start + count <= slen THEN [ok |-> TRUE, h |-> SubSeq(src, start + 1, start + count)]
@@ -29,7 +32,7 @@ Fetch(start, count) == IF start + count <= slen THEN [ok |-> TRUE, h |-> SubSeq(
 
 (* ---- a reorganisation: back up to n headers (truncate(n) per undone block), the rest is replaced later ---- *)
 Reorg ==
-  /\ nreorg < MaxReorgs /\ nreorg' = nreorg + 1
+  /\ ~pend /\ nreorg < MaxReorgs /\ nreorg' = nreorg + 1
   /\ \E n \in 1..(slen - 1) :
        /\ slen' = n /\ gen' = gen + 1
        /\ src' = [k \in 1..N |-> IF k <= n THEN src[k] ELSE Leaf(k + 100 * (gen + 1))]
@@ -38,10 +41,23 @@ Reorg ==
        /\ Ev([e |-> "reorg", n |-> n])
   \* requests in flight lived through a reorg: they may fail or answer for an in-between state
   /\ reqs' = { [r EXCEPT !.clean = FALSE] : r \in reqs }
-  /\ UNCHANGED <<nreq, bad>>
+  /\ UNCHANGED <<nreq, bad, pend>>
+(* the pre-fix order of one undone block, as two steps of the worker thread *)
+UndoTruncEarly ==
+  /\ TruncFirst /\ ~pend /\ nreorg < MaxReorgs /\ slen > 1
+  /\ pend' = TRUE /\ cache' = CTruncate(cache, slen - 1) /\ trunc' = trunc + 1
+  /\ Ev([e |-> "undo1"])
+  /\ UNCHANGED <<src, slen, gen, reqs, nreq, nreorg, bad>>
+UndoCommit ==
+  /\ pend /\ pend' = FALSE /\ nreorg' = nreorg + 1
+  /\ slen' = slen - 1 /\ gen' = gen + 1
+  /\ src' = [k \in 1..N |-> IF k <= slen - 1 THEN src[k] ELSE Leaf(k + 100 * (gen + 1))]
+  /\ reqs' = { [r EXCEPT !.clean = FALSE] : r \in reqs }
+  /\ Ev([e |-> "undo2"])
+  /\ UNCHANGED <<cache, trunc, nreq, bad>>
 Grow ==
-  /\ slen < N /\ slen' = slen + 1 /\ Ev([e |-> "grow"])
-  /\ UNCHANGED <<src, gen, cache, trunc, reqs, nreq, nreorg, bad>>
+  /\ ~pend /\ slen < N /\ slen' = slen + 1 /\ Ev([e |-> "grow"])
+  /\ UNCHANGED <<src, gen, cache, trunc, reqs, nreq, nreorg, bad, pend>>
 
 (* ---- branch_and_root(length, index) ---- *)
 Begin ==
@@ -50,7 +66,7 @@ Begin ==
        /\ reqs' = reqs \cup {[id |-> nreq + 1, length |-> length, index |-> index, pc |-> "extend", clean |-> TRUE,
                               h |-> <<>>, start |-> 0, tc |-> 0, leaf |-> <<>>]}
        /\ Ev([e |-> "begin", id |-> nreq + 1, length |-> length, index |-> index])
-  /\ UNCHANGED <<src, slen, gen, cache, trunc, nreorg, bad>>
+  /\ UNCHANGED <<src, slen, gen, cache, trunc, nreorg, bad, pend>>
 Upd(r, r2) == reqs' = (reqs \ {r}) \cup {r2}
 Drop(r) == reqs' = reqs \ {r}
 (* _extend_to: nothing to do, or fetch from the start of the final partial segment *)
@@ -62,7 +78,7 @@ ExtFetch(r) ==
           IN IF f.ok THEN Upd(r, [r EXCEPT !.pc = "assign", !.h = f.h, !.start = start, !.tc = trunc])
              ELSE Drop(r)                                  \* DBError: the request fails
   /\ Ev([e |-> "extfetch", id |-> r.id])
-  /\ UNCHANGED <<src, slen, gen, cache, trunc, nreq, nreorg, bad>>
+  /\ UNCHANGED <<src, slen, gen, cache, trunc, nreq, nreorg, bad, pend>>
 ExtAssign(r) ==
   /\ r.pc = "assign"
   /\ IF Variant = "fixed" /\ r.tc # trunc
@@ -72,14 +88,14 @@ ExtAssign(r) ==
           /\ Upd(r, [r EXCEPT !.pc = "leaf"])
   /\ trunc' = IF Variant = "fixed" /\ r.tc = trunc THEN trunc + 1 ELSE trunc
   /\ Ev([e |-> "assign", id |-> r.id])
-  /\ UNCHANGED <<src, slen, gen, nreq, nreorg, bad>>
+  /\ UNCHANGED <<src, slen, gen, nreq, nreorg, bad, pend>>
 LeafFetch(r) ==
   /\ r.pc = "leaf"
   /\ LET ls == LeafStart(r.index, cache.dh)
          f == Fetch(ls, Min(Pow2(cache.dh), r.length - ls))
      IN IF f.ok THEN Upd(r, [r EXCEPT !.pc = "level", !.leaf = f.h]) ELSE Drop(r)
   /\ Ev([e |-> "leaffetch", id |-> r.id])
-  /\ UNCHANGED <<src, slen, gen, cache, trunc, nreq, nreorg, bad>>
+  /\ UNCHANGED <<src, slen, gen, cache, trunc, nreq, nreorg, bad, pend>>
 (* the rest: small trees directly, else the (possibly re-fetched) level; the answer is checked at once *)
 Finish(r) ==
   /\ r.pc = "level"
@@ -97,15 +113,15 @@ Finish(r) ==
   /\ Drop(r)
   /\ Ev([e |-> "finish", id |-> r.id])
   /\ (Export /\ reqs' = {} => PrintT(<<"SCN", ToJson(Append(evs, [e |-> "finish", id |-> r.id]))>>))
-  /\ UNCHANGED <<src, slen, gen, cache, trunc, nreq, nreorg>>
+  /\ UNCHANGED <<src, slen, gen, cache, trunc, nreq, nreorg, pend>>
 
-Next == Reorg \/ Grow \/ Begin \/ (\E r \in reqs : ExtFetch(r) \/ ExtAssign(r) \/ LeafFetch(r) \/ Finish(r))
+Next == Reorg \/ UndoTruncEarly \/ UndoCommit \/ Grow \/ Begin \/ (\E r \in reqs : ExtFetch(r) \/ ExtAssign(r) \/ LeafFetch(r) \/ Finish(r))
 Spec == Init /\ [][Next]_vars
 
 (* ---- properties (C11, header-proof cache) ---- *)
 (* requests issued at or after quiescence are answered with proofs of the current hashes *)
 ProofsVerify == bad = {}
 (* whatever raced, once nothing is in flight the cache describes the current chain *)
-NoPoisoning == reqs = {} => /\ cache.len <= slen
+NoPoisoning == (reqs = {} /\ ~pend) => /\ cache.len <= slen
                             /\ cache.level = LevelOf(SubSeq(src, 1, cache.len), cache.dh)
 =============================================================================
